@@ -1,6 +1,7 @@
 package vm_test
 
 import (
+	"fmt"
 	"reflect"
 	"testing"
 
@@ -8,46 +9,48 @@ import (
 	"github.com/mattn/anko/vm"
 )
 
-// && and || must evaluate only the operands their result depends on, also
-// when the deciding left operand is a truthy / falsy value that is not a bool.
-func TestC07DemoShortCircuitNonBool(t *testing.T) {
+// An unhashable map key is an error when written or deleted and reads as nil,
+// also when the key value is taken out of another container (and so arrives
+// wrapped in an interface value). The map must stay unchanged.
+func TestC10M2UnhashableKeyFromContainer(t *testing.T) {
+	wantMap := map[interface{}]interface{}{"b": int64(1)}
 	tests := []struct {
-		script string
-		result interface{}
-		log    []string
+		script  string
+		wantErr string
+		wantOut interface{}
 	}{
-		// plain bools (unchanged behaviour)
-		{`p("l", true) || p("r", true)`, true, []string{"l"}},
-		{`p("l", false) && p("r", true)`, false, []string{"l"}},
-		{`p("l", false) || p("r", true)`, true, []string{"l", "r"}},
-		// non-bool deciding left operands
-		{`p("l", 1) || p("r", false)`, true, []string{"l"}},
-		{`p("l", "x") || p("r", false)`, true, []string{"l"}},
-		{`p("l", [1]) || p("r", false)`, true, []string{"l"}},
-		{`p("l", 0) && p("r", true)`, false, []string{"l"}},
-		{`p("l", nil) && p("r", true)`, false, []string{"l"}},
-		{`p("l", "") && p("r", true)`, false, []string{"l"}},
-		// the usual nil guard idiom
-		{`m = nil; m && p("r", m.x)`, false, nil},
-		{`p("a", 0) && p("b", 1) || p("c", 2) || p("d", 3)`, true, []string{"a", "c"}},
+		{`a = {"b": 1}; k = [[1, 2]]; a[k[0]] = 3`, "type []interface {} cannot be used as map key", nil},
+		{`a = {"b": 1}; k = [{"x": 1}]; a[k[0]] = 3`, "type map[interface {}]interface {} cannot be used as map key", nil},
+		{`a = {"b": 1}; k = [[1, 2]]; delete(a, k[0])`, "type []interface {} cannot be used as map key in delete", nil},
+		{`a = {"b": 1}; k = [[1, 2]]; a[k[0]]`, "", nil},
+		{`a = {"b": 1}; k = [[1, 2]]; {k[0]: 1}`, "type []interface {} cannot be used as map key", nil},
+		// hashable keys taken from a container keep working
+		{`a = {"b": 1}; k = ["b", nil]; a[k[0]]`, "", int64(1)},
+		{`a = {"b": 1}; k = ["b", nil]; a[k[1]]`, "", nil},
 	}
 	for _, tt := range tests {
-		var log []string
-		e := env.NewEnv()
-		_ = e.Define("p", func(tag string, v interface{}) interface{} {
-			log = append(log, tag)
-			return v
-		})
-		v, err := vm.Execute(e, nil, tt.script)
-		if err != nil {
-			t.Errorf("%s: unexpected error %v", tt.script, err)
-			continue
-		}
-		if v != tt.result {
-			t.Errorf("%s: result %v, want %v", tt.script, v, tt.result)
-		}
-		if !reflect.DeepEqual(log, tt.log) {
-			t.Errorf("%s: probe log = %v, want %v", tt.script, log, tt.log)
-		}
+		func() {
+			defer func() {
+				if r := recover(); r != nil {
+					t.Errorf("script %q: host panic: %v", tt.script, r)
+				}
+			}()
+			e := env.NewEnv()
+			out, err := vm.Execute(e, nil, tt.script)
+			got := ""
+			if err != nil {
+				got = err.Error()
+			}
+			if got != tt.wantErr {
+				t.Errorf("script %q: error %q, want %q", tt.script, got, tt.wantErr)
+			}
+			if err == nil && !reflect.DeepEqual(out, tt.wantOut) {
+				t.Errorf("script %q: output %#v, want %#v", tt.script, out, tt.wantOut)
+			}
+			a, _ := e.Get("a")
+			if !reflect.DeepEqual(a, wantMap) {
+				t.Errorf("script %q: a = %s, want %s", tt.script, fmt.Sprint(a), fmt.Sprint(wantMap))
+			}
+		}()
 	}
 }
